@@ -8,12 +8,18 @@ from vt import nsio
 
 ID = 'C14'
 RULE = ('seeded structured NoteSequences on the exact tick grid (<= 4 instruments, 1-3 pitches per instrument so that '
-        'same-pitch interactions are frequent, pedal timelines with repeated ons, offs without on, values 0..127, other '
-        'controllers, events coinciding with note starts/ends and with each other to the tick and +-1 tick); mode "clean" '
-        'satisfies the property\'s quantifier (no two same-pitch notes of an instrument overlap or start together), mode '
-        '"free" does not (model correspondence + the unconditional clauses only); thorough adds an exhaustive sweep of '
-        'all small timelines (2 same-pitch notes x 2 pedal events on a 4-point grid, all storage orders).  Non-trivial = '
-        'the implementation changed at least one note end, removed a note, or rejected the input; distinct by canonical input.')
+        'same-pitch interactions are frequent, pedal timelines with repeated ons, offs without on, press+release at one '
+        'instant in either storage order, control changes stored out of time order, values 0..127, pedals of instruments '
+        'without notes, drum notes after the last pitched event, events coinciding with note starts/ends and with each '
+        'other to the tick and +-1 tick).  The sustain control number is drawn first and independently (64 in ~45% of the '
+        'cases, else 66/67/1/0/127/7, passed by default / keyword / position); when it is not 64, CC64 timelines are still '
+        'present as "another controller".  Mode "clean" satisfies the property\'s quantifier (no two same-pitch notes of '
+        'an instrument overlap or start together), mode "free" does not (model correspondence + the unconditional clauses '
+        'only); "quant" covers the rejection path and its near misses (both step counts, negative counts, empty '
+        'quantization_info present); some cases are the OUTPUT of an earlier application; thorough adds exhaustive sweeps '
+        'of small timelines.  Every accepted case is called twice and the second result is wrecked to expose aliasing.  '
+        'Non-trivial = the implementation changed at least one note end, removed a note, or rejected the input; distinct '
+        'by canonical input.')
 ASSUMPTIONS = [
     'times are multiples of 2^-40 s below 2^12 s, on which the float comparisons and assignments of the code are exact',
     'protobuf value equality of Note messages = equality of all fields carried in the model record (pitch, velocity, '
@@ -42,6 +48,7 @@ def gen_coq():
 # ---------------------------------------------------------------- generator
 VALUES = [0, 1, 63, 64, 65, 100, 127]
 PROGRAMS = (0, 1, 33)
+CTLS = [64] * 5 + [66, 67, 1, 0, 127, 7]
 
 
 def _time(rng, hi, pool, p_reuse, p_jit):
@@ -90,27 +97,43 @@ def gen_desc(rng, mode):
             if not any(_clash(k, n) for k in kept):
                 kept.append(n)
         notes = kept
+    if rng.random() < 0.12:
+        # a drum note after every pitched event (its end must stay inside total_time; it is not an event)
+        late = (hi + rng.randint(1, 6)) * QS
+        notes.insert(rng.randint(0, len(notes)), [rng.choice([36, 38, 42]), 100, rng.choice([0, late - QS]), late,
+                                                  rng.randrange(ninstr), 0, 1, 0, 0, 0])
     d = nsio.gen_desc(rng, max_notes=0, max_instr=ninstr, hi_quarters=hi, pedals=False, max_events=2)
     d['notes'] = notes
+    # the sustain control number is drawn first and independently of everything else; when it is not 64, CC64
+    # events are still generated and are then just "another controller"
+    ctl = rng.choice(CTLS)
+    numbers = [ctl] * 5 + [64, 66, 67, 7, 1, 0, 127]
     ccs = []
     for _ in range(rng.randint(0, rng.choice([2, 5, 10]))):
-        num = rng.choice([64, 64, 64, 64, 64, 66, 67, 7])
+        num = rng.choice(numbers)
         val = rng.choice(VALUES) if rng.random() < 0.8 else rng.randint(0, 127)
-        if mode.startswith('nopedal') and num == 64:
+        if mode.startswith('nopedal') and num == ctl:
             val = min(val, rng.choice([0, 63]))
-        ccs.append([_time(rng, hi, pool, max(p_reuse, 0.4), p_jit), 0, num, val, rng.randrange(ninstr),
+        # instrument ninstr has no notes: a pedal without notes must change nothing
+        ccs.append([_time(rng, hi, pool, max(p_reuse, 0.4), p_jit), 0, num, val, rng.randrange(ninstr + 1),
                     rng.choice(PROGRAMS), int(rng.random() < 0.1)])
     if not mode.startswith('nopedal'):
-        # pedal timelines: per instrument a run of presses/releases (repeated ons, offs without on included)
+        # pedal timelines: per instrument a run of presses/releases (repeated ons, offs without on included),
+        # on the requested controller, and (when that is not 64) sometimes a CC64 timeline that must be ignored
         for i in range(ninstr):
-            if rng.random() < 0.6:
-                down = rng.random() < 0.8
-                for _ in range(rng.randint(1, 4)):
-                    val = rng.choice([64, 100, 127]) if down else rng.choice([0, 1, 63])
-                    ccs.append([_time(rng, hi, pool, max(p_reuse, 0.5), p_jit), 0, 64, val, i,
-                                rng.choice(PROGRAMS), 0])
-                    if rng.random() < 0.8:
-                        down = not down
+            for num, p in ((ctl, 0.6), (64 if ctl != 64 else 66, 0.25)):
+                if rng.random() < p:
+                    down = rng.random() < 0.8
+                    for _ in range(rng.randint(1, 4)):
+                        val = rng.choice([64, 100, 127]) if down else rng.choice([0, 1, 63])
+                        t = _time(rng, hi, pool, max(p_reuse, 0.5), p_jit)
+                        ccs.append([t, 0, num, val, i, rng.choice(PROGRAMS), 0])
+                        if rng.random() < 0.15:
+                            # press and release at the very same time, in either storage order
+                            other = rng.choice([0, 63]) if val >= 64 else rng.choice([64, 127])
+                            ccs.insert(rng.randint(0, len(ccs)), [t, 0, num, other, i, rng.choice(PROGRAMS), 0])
+                        if rng.random() < 0.8:
+                            down = not down
         rng.shuffle(ccs)
     d['ccs'] = ccs
     ends = [n[3] for n in notes]
@@ -119,13 +142,22 @@ def gen_desc(rng, mode):
     if r < 0.3:
         total += rng.randint(1, 8) * QS
     d['total'] = total
+    if rng.random() < 0.1:
+        d['sub'] = [rng.randint(0, 4) * QS, rng.randint(0, 4) * QS]
     if mode == 'quant':
-        if rng.random() < 0.5:
+        r = rng.random()
+        if r < 0.35:
             d['spq'] = rng.choice([1, 4, 24])
-        else:
+        elif r < 0.7:
             d['sps'] = rng.choice([1, 100])
-    ctl = 64 if rng.random() < 0.9 else rng.choice([66, 67, 7])
-    return {'desc': d, 'ctl': ctl}
+        elif r < 0.8:
+            d['spq'] = rng.choice([1, 4]); d['sps'] = rng.choice([1, 100])
+        elif r < 0.9:
+            d['spq'] = -rng.choice([1, 4])          # not "> 0": NOT quantized, must be accepted
+        else:
+            d['qinfo_empty'] = True                   # empty sub-message present: NOT quantized
+    call = 'default' if (ctl == 64 and rng.random() < 0.7) else rng.choice(['kw', 'pos'])
+    return {'desc': d, 'ctl': ctl, 'call': call}
 
 
 def _mk(op, inp):
@@ -186,7 +218,58 @@ def corpus():
     q['desc']['sps'] = 100
     out.append(_mk('sustain', q))
     out.append(_mk('sustain', _small([], [])))
+    # ---- audit additions
+    # non-default control numbers, CC64 present as "another controller" (it must not even count as an event)
+    for ctl in (66, 67, 1, 0, 127):
+        out.append(_mk('sustain', _small([(60, 0, 4), (60, 6, 8), (62, 1, 3)],
+                                         [(3, 127, 0, ctl), (7, 0, 0, ctl), (2, 127, 0, 64), (12, 0, 0, 64)], ctl=ctl)))
+        out.append(_mk('sustain', _small([(60, 0, 4)], [(3, 127, 0, ctl), (2, 127, 0, 64), (9, 0, 0, 64)], ctl=ctl)))
+    c = _small([(60, 0, 4)], [(2, 127), (8, 0)]); c['call'] = 'kw'; out.append(_mk('sustain', c))
+    c = _small([(60, 0, 4)], [(2, 127), (8, 0)]); c['call'] = 'pos'; out.append(_mk('sustain', c))
+    # control changes stored out of time order, with repeated presses / releases
+    out.append(_mk('sustain', _small([(60, 0, 3), (64, 5, 7)], [(6, 127), (2, 127), (8, 0), (4, 0)])))
+    out.append(_mk('sustain', _small([(60, 0, 3), (64, 5, 7)], [(8, 0), (6, 100), (4, 0), (2, 64), (1, 127)])))
+    out.append(_mk('sustain', _small([(60, 0, 5)], [(9, 0), (4, 127), (2, 0), (1, 127), (6, 127)])))
+    # press and release at one instant, both storage orders, at / before / after a note end
+    for ped in ([(4, 127), (4, 0)], [(4, 0), (4, 127)], [(0, 127), (4, 0), (4, 127)], [(0, 127), (4, 127), (4, 0)]):
+        for end in (3, 4, 5):
+            out.append(_mk('sustain', _small([(60, 0, end), (60, 8, 9)], ped + [(12, 0)])))
+    # drum notes after the last pitched event / only drum notes / pedal of an instrument without notes
+    out.append(_mk('sustain', _small([(60, 0, 4), (36, 10, 12, 0, 1), (38, 0, 30, 0, 1)], [(2, 127)])))
+    out.append(_mk('sustain', _small([(60, 0, 4), (36, 10, 12, 0, 1)], [(2, 127), (6, 127, 1)])))
+    out.append(_mk('sustain', _small([(36, 0, 4, 0, 1), (38, 2, 9, 0, 1)], [(1, 127), (3, 0)])))
+    out.append(_mk('sustain', _small([(60, 0, 4)], [(2, 127, 5), (8, 0, 5)])))
+    # an empty quantization_info sub-message / non-positive step counts are NOT quantized; both counts set is
+    c = _small([(60, 0, 4)], [(2, 127), (8, 0)]); c['desc']['qinfo_empty'] = True; out.append(_mk('sustain', c))
+    c = _small([(60, 0, 4)], [(2, 127), (8, 0)]); c['desc']['spq'] = -4; out.append(_mk('sustain', c))
+    c = _small([(60, 0, 4)], [(2, 127), (8, 0)]); c['desc']['sps'] = -1; out.append(_mk('sustain', c))
+    c = _small([(60, 0, 4)], [(2, 127)]); c['desc']['spq'] = 4; c['desc']['sps'] = 100; out.append(_mk('sustain', c))
+    c = _small([(60, 0, 4)], [(2, 127), (8, 0)]); c['desc']['sub'] = [QS, 2 * QS]; out.append(_mk('sustain', c))
+    # range ends of the controller value and a single zero-length note under the pedal
+    out.append(_mk('sustain', _small([(60, 0, 4), (62, 0, 4, 1)], [(1, 64), (6, 63), (1, 63, 1), (6, 64, 1)])))
+    out.append(_mk('sustain', _small([(60, 3, 3)], [(1, 127), (6, 0)])))
     return out
+
+
+def _desc_of(ns):
+    """Description of a real NoteSequence (used to feed the OUTPUT of one call into another)."""
+    w = nsio.to_wire(ns)
+    d = {'notes': w[0], 'tempos': w[1], 'tsigs': w[2], 'ksigs': w[3], 'texts': w[4], 'ccs': w[5], 'bends': w[6],
+         'sects': w[7], 'total': w[8], 'qsteps': w[9], 'spq': w[10], 'sps': w[11], 'sub': w[12], 'tpq': w[13],
+         'meta': None}
+    if ns.HasField('quantization_info') and not w[10] and not w[11]:
+        d['qinfo_empty'] = True
+    return d
+
+
+def _two_step(inp):
+    """The result of apply_sustain_control_changes used as the input of a second application."""
+    try:
+        from note_seq import sequences_lib as sl
+        out = _call(sl, nsio.to_proto(inp['desc']), inp)
+        return {'desc': _desc_of(out), 'ctl': inp['ctl'], 'call': inp.get('call', 'kw'), 'mode': 'two-step'}
+    except Exception:  # noqa
+        return None
 
 
 def _exhaustive_small():
@@ -221,6 +304,10 @@ def cases(rng, tier, n=None):
         # the Gallina specification spec_notes (op 3 of Run/C14.v) against the implementation, inside the quantifier
         if mode == 'clean' and k % 2 == 0 and in_quantifier(c['desc']):
             out.append(_mk('spec', c))
+        if k % 9 == 4 and mode in ('clean', 'free'):
+            t = _two_step(c)
+            if t is not None:
+                out.append(_mk('sustain', t))
     if thorough and n is None:
         ex = _exhaustive_small()
         out += ex
@@ -234,18 +321,25 @@ def _rows(ns):
              int(n.is_drum), n.quantized_start_step, n.quantized_end_step, nsio.note_rest(n)] for n in ns.notes]
 
 
+def _call(sl, ns, a):
+    how = a.get('call', 'default' if a['ctl'] == 64 else 'kw')
+    if how == 'default' and a['ctl'] == 64:
+        return sl.apply_sustain_control_changes(ns)
+    if how == 'pos':
+        return sl.apply_sustain_control_changes(ns, a['ctl'])
+    return sl.apply_sustain_control_changes(ns, sustain_control_number=a['ctl'])
+
+
 def impl(case):
     from note_seq import sequences_lib as sl
     a = case['input']
     ns = nsio.to_proto(a['desc'])
     before = ns.SerializeToString(deterministic=True)
     try:
-        if a['ctl'] == 64 and not a.get('explicit_ctl'):
-            out = sl.apply_sustain_control_changes(ns)
-        else:
-            out = sl.apply_sustain_control_changes(ns, sustain_control_number=a['ctl'])
+        out = _call(sl, ns, a)
     except Exception as e:  # noqa
-        return ['EXC', type(e).__name__]
+        # rejection path: the argument must be untouched when the error is raised
+        return ['EXC', type(e).__name__, int(ns.SerializeToString(deterministic=True) == before)]
     input_same = int(ns.SerializeToString(deterministic=True) == before)
     o2 = copy.deepcopy(out)
     i2 = copy.deepcopy(ns)
@@ -254,7 +348,24 @@ def impl(case):
         m.ClearField('total_time')
     others_same = int(o2.SerializeToString(deterministic=True) == i2.SerializeToString(deterministic=True))
     fresh = int(out is not ns)
-    return ['OK', _rows(out), nsio.f2t(out.total_time), [others_same, input_same, fresh]]
+    rows, total = _rows(out), nsio.f2t(out.total_time)
+    # state across calls / aliasing: same call again on the same argument gives an equal, distinct object; wrecking
+    # that second result changes neither the argument nor the first result (kept alive meanwhile)
+    snap = out.SerializeToString(deterministic=True)
+    try:
+        again = _call(sl, ns, a)
+        twice = int(again.SerializeToString(deterministic=True) == snap and again is not out and again is not ns)
+        for n in again.notes:
+            n.end_time += 1.0
+            n.pitch = 0
+        del again.control_changes[:]
+        del again.notes[:]
+        again.total_time = -1.0
+        alias_free = int(ns.SerializeToString(deterministic=True) == before and
+                         out.SerializeToString(deterministic=True) == snap)
+    except Exception:  # noqa
+        twice, alias_free = 0, 0
+    return ['OK', rows, total, [others_same, input_same, fresh, twice, alias_free]]
 
 
 # ---------------------------------------------------------------- model
@@ -265,9 +376,9 @@ def model_input(case):
 
 def model_output(case, m):
     if m[0] == -1000:
-        return ['EXC', 'QuantizationStatusError']
+        return ['EXC', 'QuantizationStatusError', 1]
     notes, total = m[1]
-    return ['OK', notes, total, [1, 1, 1]]
+    return ['OK', notes, total, [1, 1, 1, 1, 1]]
 
 
 def equal(case, a, b):
@@ -316,6 +427,8 @@ def oracle(case, io):
     quantized = d.get('spq', 0) > 0 or d.get('sps', 0) > 0
     if io[0] == 'EXC':
         if quantized and io[1] == 'QuantizationStatusError':
+            if len(io) > 2 and io[2] != 1:
+                return {'kind': 'argument-modified-before-raising'}
             return None
         return {'kind': 'unexpected-exception', 'exc': io[1], 'quantized': quantized}
     if io[0] != 'OK':
@@ -329,6 +442,10 @@ def oracle(case, io):
         return {'kind': 'other-field-changed'}
     if flags[2] != 1:
         return {'kind': 'result-is-not-a-copy'}
+    if len(flags) > 3 and flags[3] != 1:
+        return {'kind': 'second-call-on-same-argument-differs'}
+    if len(flags) > 4 and flags[4] != 1:
+        return {'kind': 'result-aliases-argument-or-earlier-result'}
     notes = d['notes']
     nd = lambda r: r[:3] + r[4:]           # everything but the end time
     # every returned note is an input note with (possibly) another end; drums are all there, unchanged
